@@ -66,7 +66,9 @@ func replayBFS(c *runCtx, model, file string, opts func(tier string) interface{}
 		if len(e) > 0 && e[0] == '#' {
 			// a crash / fault history (second pass of a check): the fault model replays it
 			model = "c06"
-			ob = []byte("{}")
+			if rf.Violation.Opts == nil {
+				ob = []byte("{}")
+			}
 		}
 	}
 	hb, _ := json.Marshal(rf.Violation.Hist)
